@@ -1,5 +1,6 @@
 import N0Verif.Proofs.ComparePerm
 import N0Verif.Proofs.CompareKeyVals
+import N0Verif.Proofs.CompositeKeysGenEq
 /-!
 # C08 — keyed unordered compare ignores order and classifies every record exactly once
 
@@ -145,5 +146,61 @@ theorem C08_separator_fixed :
       (.list .n0 [.dict .n0 [(['a'], .str ['1']), (['b'], .str ['2'])]])).map
       (fun r => (r.diffs, r.selfUnique.length, r.otherUnique.length, r.notEqual.length)) = .ok (2, 1, 1, 0) := by
   decide
+
+/-! ### Source tie: the record branch of `generate_composite_keys` regenerated from the Python text
+(`Gen/CompositeKeysPy.lean`, written by `harness/translate_py_keys.py` on every run; lemmas in
+`Proofs/CompositeKeysGenEq.lean`) -/
+
+/-- one iteration of the translated `for key in elements_for_composite_key` (`if key in line`, the transform lookup
+with `prefix[line_i]/key`, `key_fields[key] = …`) is one step of the model's `recordFields` -/
+theorem C08_generated_keys_step (cfg : Cfg) (q : Path) (kvs acc : List (Str × Val)) (key : Str) :
+    Gen.CompositeKeysPy.RecordKey.step cfg.tr (cfg.tr.map (·.pat)) q kvs acc key =
+      (match Val.lookup key kvs with
+       | none => acc
+       | some v => setField key (transformAt cfg (q ++ [.key key]) v) acc) :=
+  Gen.CompositeKeysPy.step_eq cfg q kvs acc key
+
+/-- the translated record branch (str → one-element list, the loop over the key fields, JSON text of the key fields
+or the empty key) computes the model's record key, for every option record, item path and record -/
+theorem C08_generated_keys_record (cfg : Cfg) (q : Path) (kvs : List (Str × Val)) :
+    Gen.CompositeKeysPy.recordKey cfg.ck cfg.tr q kvs = fieldsKey (recordFields cfg q kvs cfg.ck.pats []) :=
+  Gen.CompositeKeysPy.recordKey_eq cfg q kvs
+
+/-- … which is the key `keyOf` gives item `i` of the list at `p` when it is a dictionary (of either class) -/
+theorem C08_generated_keys_keyOf (cfg : Cfg) (p : Path) (i : Nat) (o : Cls) (kvs : List (Str × Val)) :
+    keyOf cfg p i (.dict o kvs) = .ok (Gen.CompositeKeysPy.recordKey cfg.ck cfg.tr (p ++ [.idx i]) kvs) :=
+  Gen.CompositeKeysPy.keyOf_dict_eq cfg p i o kvs
+
+/-- … and the keys `keysOf` gives a list of records are, item by item, the keys of the translated code -/
+theorem C08_generated_keys_records (cfg : Cfg) (p : Path) (i : Nat) (rs : List (Cls × List (Str × Val))) :
+    keysOf cfg p i (rs.map (fun r => Val.dict r.1 r.2)) = .ok (Gen.CompositeKeysPy.recordKeys cfg p i rs) :=
+  Gen.CompositeKeysPy.keysOf_records_eq cfg p i rs
+
+/-- non-vacuity: key fields `id`, `x`, `k` (given as a tuple) on a record with a falsy `id` and no `x`; the transform
+registered for `rows[1]/k` is applied to `k` -/
+example :
+    Gen.CompositeKeysPy.recordKey (.many [['i', 'd'], ['x'], ['k']]) [⟨"rows[1]/k".toList, fun _ => .str ['Z']⟩]
+      [.key ['r', 'o', 'w', 's'], .idx 1] [(['k'], .str ['a']), (['i', 'd'], .int 0)]
+      = "{\"id\": 0, \"k\": \"Z\"}".toList := by
+  decide +kernel
+
+/-- non-vacuity: a `str` composite key; a record without the field keeps the empty key -/
+example :
+    Gen.CompositeKeysPy.recordKey (.one ['i', 'd']) [] [.key ['p'], .idx 0] [(['a'], .int 1)] = [] ∧
+    Gen.CompositeKeysPy.recordKey (.one ['i', 'd']) [] [.key ['p'], .idx 0] [(['i', 'd'], .none)]
+      = "{\"id\": null}".toList := by
+  decide +kernel
+
+/-- non-vacuity of the step: a present field is assigned, an absent one leaves the fields alone -/
+example :
+    Gen.CompositeKeysPy.RecordKey.step [] [] [.idx 0] [(['a'], .bool false)] [] ['a'] = [(['a'], .bool false)] ∧
+    Gen.CompositeKeysPy.RecordKey.step [] [] [.idx 0] [(['a'], .bool false)] [] ['b'] = [] := by
+  decide +kernel
+
+/-- non-vacuity of the list form: two records, the second without the key field -/
+example :
+    Gen.CompositeKeysPy.recordKeys (Cfg.mk Flags.init false (.one ['i', 'd']) (.many []) (.many []) []) [.key ['p']] 0
+      [(.n0, [(['i', 'd'], .str ['7'])]), (.plain, [(['b'], .int 7)])] = ["{\"id\": \"7\"}".toList, []] := by
+  decide +kernel
 
 end N0.C08
